@@ -58,6 +58,19 @@ Theorem C06_rk4_linear_forced_cubic l a0 a1 a2 a3 h t y :
 Proof. exact (rk4_gen_linear_forced_cubic l a0 a1 a2 a3 h t y). Qed.
 Print Assumptions C06_rk4_linear_forced_cubic.
 
+(* nonlinear in (t, y): y' = c t y - degree-4 Taylor polynomial of the exact solution plus an
+   explicit multiple of h^5 *)
+Theorem C06_rk4_ty c h t y :
+  RK4_R (fun t y => c * t * y) h t y = taylor y (ty_derivs c t y) h + h ^ 5 * ty_defect c t y h.
+Proof. exact (rk4_gen_ty c h t y). Qed.
+Print Assumptions C06_rk4_ty.
+
+(* nonlinear autonomous: y' = r y (1 - y) *)
+Theorem C06_rk4_logistic r h t y :
+  RK4_R (fun _ y => r * y * (1 - y)) h t y = taylor y (logistic_derivs r y) h + h ^ 5 * logistic_defect r y h.
+Proof. exact (rk4_gen_logistic r h t y). Qed.
+Print Assumptions C06_rk4_logistic.
+
 (* vector valued: x' = L x + g0 + t g1 for a linear operator L on any vector space *)
 Theorem C06_rk4_affine_system (VS : vspace) (L : VS -> VS) (g0 g1 : VS) getdt t y :
   (forall a b, L (vadd a b) = vadd (L a) (L b)) -> (forall c a, L (smul c a) = smul c (L a)) ->
